@@ -413,6 +413,10 @@ sqfs_inode_generic_t
 		inode->payload_bytes_used = 0;
 
 		for (idx = writer->idx; idx != NULL; idx = idx->next) {
+			/* the index count is a 16 bit field, the index is optional */
+			if (inode->data.dir_ext.inodex_count == 0xFFFF)
+				break;
+
 			memset(&ent, 0, sizeof(ent));
 			ent.start_block = idx->block;
 			ent.index = idx->index;
